@@ -81,7 +81,29 @@ def _check(prop, tier, seed, replay, work, t0):
             hdr = evs[0]
             rets = [e for e in evs if e["ev"] == "Return"]
             executed = {e["idx"] for e in evs if e["ev"] == "Exec"}
+            # which keys are out of order at this event, and was the slot of one of them handed over before?
+            keys_of = hdr["keysOf"]
+            last, bad_keys = {}, set()
+            for e in evs[1:v["line"] - j]:
+                if e["ev"] == "Exec" and e.get("idx", 0) > 0:
+                    for kk in keys_of[e["idx"] - 1]:
+                        o = sum(1 for q in range(e["idx"]) if kk in keys_of[q])
+                        if o > last.get(kk, 0) + 1:
+                            # the keys of the commands that were jumped over (a multi-key command drags its other keys in)
+                            seen_ord = 0
+                            for q in range(e["idx"]):
+                                if kk in keys_of[q]:
+                                    seen_ord += 1
+                                    if last.get(kk, 0) < seen_ord < o:
+                                        bad_keys.update(keys_of[q])
+                            bad_keys.add(kk)
+                        last[kk] = o
+            at = evs[v["line"] - j - 1]
+            if at["ev"] == "Return":
+                bad_keys = {kk for kk in range(1, hdr["nkeys"] + 1) if last.get(kk, 0) != sum(1 for q in keys_of if kk in q)}
+            moved = {e["k"] for e in evs[:v["line"] - j] if e["ev"] == "Mig"}
             sig = {"invariant": names[0], "txn": hdr["txn"], "pipe": hdr["pipe"],
+                   "violating_key_migrated": bool(bad_keys & moved) or names[0] != "C19_PerKeyOrderBroken",
                    "migrated_before": any(e["ev"] == "Mig" for e in evs[:v["line"] - j]),
                    "first_run_reported_error": bool(rets and rets[0]["err"]),
                    "lost_without_error": bool(rets and not rets[-1]["err"] and executed != set(range(1, len(hdr["keysOf"]) + 1)))}
